@@ -38,7 +38,10 @@ def add_set(stats, key, value):
 
 def merge_stats(into, other):
     for k, v in other['counters'].items():
-        into['counters'][k] = into['counters'].get(k, 0) + v
+        if k == 'slowest_run_s':
+            into['counters'][k] = max(into['counters'].get(k, 0.0), v)
+        else:
+            into['counters'][k] = into['counters'].get(k, 0) + v
     for k, v in other['sets'].items():
         into['sets'].setdefault(k, set()).update(v)
     for s in other['samples']:
@@ -85,6 +88,7 @@ def _worker_batch(prop_name, seed, indices, tier, options):
     t0 = time.time()
     for index in indices:
         faulthandler.dump_traceback_later(options.get('run_wall_cap', 120), exit=True)
+        t_run = time.time()
         try:
             spec = prop.generate(seed, index, tier, options)
             result = prop.execute(spec)
@@ -94,6 +98,10 @@ def _worker_batch(prop_name, seed, indices, tier, options):
             faulthandler.cancel_dump_traceback_later()
         merge_stats(stats, result['stats'])
         bump(stats, 'runs')
+        dt = time.time() - t_run
+        stats['counters']['slowest_run_s'] = max(stats['counters'].get('slowest_run_s', 0.0), dt)
+        if dt > 10:
+            print(f'slow run {prop_name} seed={seed} index={index}: {dt:.1f}s', file=sys.stderr)
         logs[index] = result.get('log_digest')
         for v in result['violations']:
             if len(violations) < 20:
